@@ -554,11 +554,70 @@ def keyset_history(ctx, rng):
     ctx.count("keyset_histories")
 
 
+def import_order_cases(ctx):
+    """which key a set yields for an algorithm does not depend on the order in which a process imported the joserfc modules"""
+    from .. import importorder as IO
+    mats = {"oct": {**gen.new_oct(256), "kid": "o"}, "P-256": {**gen.new_ec("P-256"), "kid": "e"}, "Ed25519": {**gen.new_okp("Ed25519"), "kid": "d"},
+            "RSA": {**gen.new_rsa(2048), "kid": "r"}, "X25519": {**gen.new_okp("X25519"), "kid": "x"}, "oct128": {**gen.new_oct(128), "kid": "o128"}}
+    pre = ("import json, base64\nfrom joserfc.jwk import KeySet, JWKRegistry\n"
+           "ks = KeySet([JWKRegistry.import_key(dict(M['jwks'][n])) for n in ('oct', 'P-256', 'Ed25519', 'RSA')])\n"   # one key per key type: the pick is determined
+           "ke = KeySet([JWKRegistry.import_key(dict(M['jwks'][n])) for n in ('oct', 'X25519', 'RSA')])\n"
+           "hdr = lambda t: json.loads(base64.urlsafe_b64decode(t.split('.')[0] + '=='))\n")
+    items = []
+    for alg in ("HS256", "ES256", "EdDSA", "RS256", "PS256"):
+        items.append((f"sign-without-kid:{alg}", pre + f"from joserfc import jws\nt = jws.serialize_compact({{'alg': {alg!r}}}, b'x', ks, algorithms=[{alg!r}])\n"
+                                                      f"out = [hdr(t).get('kid'), jws.deserialize_compact(t, ks, algorithms=[{alg!r}]).payload.decode()]"))
+    for alg, enc in (("RSA-OAEP", "A128GCM"), ("ECDH-ES", "A128GCM"), ("A256KW", "A128GCM")):
+        items.append((f"encrypt-without-kid:{alg}", pre + f"from joserfc import jwe\nt = jwe.encrypt_compact({{'alg': {alg!r}, 'enc': {enc!r}}}, b'x', ke)\n"
+                                                          f"out = [hdr(t).get('kid'), jwe.decrypt_compact(t, ke).plaintext.decode()]"))
+    items.append(("jwt-through-set", pre + "from joserfc import jwt\nt = jwt.encode({'alg': 'ES256'}, {'a': 1}, ks)\nout = [hdr(t).get('kid'), jwt.decode(t, ks).claims]"))
+    res = IO.run_orders(items, {"jwks": mats})
+    ctx.count("import_orders_run", len(res))
+    IO.compare(ctx, res, "import-order-dependence", "key set resolution")
+
+
+def shared_parameters_set(ctx, rng):
+    """keys generated with one shared parameters dict (as generate_key_set does): distinct kids, and the kid of a token names the key that signed it"""
+    j = J.load()
+    for maker, alg in ((lambda p: j.ECKey.generate_key("P-256", p), "ES256"), (lambda p: j.OctKey.generate_key(256, p), "HS256")):
+        for shared in ({"use": "sig"}, {"alg": alg}):
+            ctx.ev()
+            before = dict(shared)
+            keys = [maker(shared) for _ in range(4)]
+            ks = call(j.KeySet, keys)
+            ctx.count("shared_parameter_sets")
+            ctx.nontrivial(("shared-params", alg, tuple(before)))
+            case = {"alg": alg, "shared_parameters": before}
+            if not ks.ok:
+                ctx.violation(f"keyset-construction-fails:{ks.etype}", f"KeySet over keys generated with one parameters dict: {ks.exc!r}", case)
+                continue
+            kids = [k.kid for k in keys]
+            if len(set(kids)) != len(kids) or any(not x for x in kids):
+                ctx.violation("kids-not-distinct", f"four keys generated with one shared parameters dict {before} carry the kids {kids}", case)
+                continue
+            for idx, key in enumerate(keys):
+                t = call(j.jws.serialize_compact, {"alg": alg, "kid": key.kid}, b"c14 shared", ks.value, algorithms=[alg])
+                ctx.count("produce_ops")
+                if not t.ok:
+                    ctx.violation(f"produce-fails:{t.etype}", f"signing with kid of key #{idx} failed: {t.exc!r}", case)
+                    continue
+                exp = call(key.as_dict, private=False) if alg != "HS256" else call(key.as_dict)
+                r = rjws.verify_compact(t.value, RefKey.from_jwk(exp.value))
+                if r.verdict != "ACCEPT":
+                    ctx.violation("kid-names-another-key", f"a token carrying the kid of key #{idx} is not signed by that key ({r.reason})", case)
+            if shared != before:
+                ctx.violation("caller-parameters-modified", f"the shared parameters dict changed {before!r} -> {shared!r}", case)
+
+
 def run_shard(ctx):
     J.load()
     J.register_drafts()
     rng = ctx.rng
     mon = Mon(ctx)
+    if ctx.shard == 4:
+        import_order_cases(ctx)
+    if ctx.shard == 5:
+        shared_parameters_set(ctx, rng)
     try:
         n = 110 if ctx.tier == "quick" else 6000
         for i in range(n):
